@@ -25,6 +25,7 @@ import (
 	"strconv"
 	"strings"
 	"sync"
+	"time"
 
 	"github.com/ohler55/slip"
 	"verif/harness/lib"
@@ -39,10 +40,10 @@ func init() {
 // programs
 
 type c08Expr struct {
-	Kind string      `json:"k"` // const | var | prim | if | let | call
-	N    int64       `json:"n,omitempty"`
-	Name string      `json:"s,omitempty"` // var name, prim op, let variable, callee
-	Args []*c08Expr  `json:"a,omitempty"` // prim: 2, if: 3, let: init, body; call: arguments
+	Kind string     `json:"k"` // const | var | prim | if | let | call
+	N    int64      `json:"n,omitempty"`
+	Name string     `json:"s,omitempty"` // var name, prim op, let variable, callee
+	Args []*c08Expr `json:"a,omitempty"` // prim: 2, if: 3, let: init, body; call: arguments
 }
 
 type c08Def struct {
@@ -597,7 +598,12 @@ type c08Result struct {
 
 type c08Budget struct{}
 
-const c08EvalBudget = 150000
+const c08JobTimeout = 300 * time.Second
+
+// Function.Eval calls allowed per step on the implementation. An admissible step needs fewer than
+// c08MaxSteps of them; the bound must stay small because a runaway recursion makes slip's variable
+// lookup walk an ever longer chain of scopes (quadratic time).
+const c08EvalBudget = 2*c08MaxSteps + 100
 
 func c08Show(v slip.Object, suffix string) string {
 	switch tv := v.(type) {
@@ -904,7 +910,22 @@ func c08RunJobs(jobs []*c08Job, nw int) []*c08Result {
 				var line []byte
 				var rerr error
 				if werr == nil {
-					line, rerr = p.out.ReadBytes('\n')
+					type rd struct {
+						line []byte
+						err  error
+					}
+					ch := make(chan rd, 1)
+					go func(r *bufio.Reader) {
+						l, e := r.ReadBytes('\n')
+						ch <- rd{l, e}
+					}(p.out)
+					select {
+					case x := <-ch:
+						line, rerr = x.line, x.err
+					case <-time.After(c08JobTimeout):
+						// far beyond anything an admissible history needs (milliseconds): a hang
+						rerr = fmt.Errorf("timeout")
+					}
 				}
 				var res c08Result
 				if werr != nil || rerr != nil || json.Unmarshal(line, &res) != nil || res.ID != jobs[k].ID {
@@ -1175,8 +1196,8 @@ func c08Replay(c *lib.Ctx) {
 		} `json:"input"`
 	}
 	if err := lib.ReadJSON(c.Replay, &rec); err != nil || len(rec.Input.Steps) == 0 {
-		fmt.Println("cannot read replay file (no recorded history):", err)
-		return
+		fmt.Fprintln(os.Stderr, "cannot read replay file (no recorded history):", c.Replay, err)
+		os.Exit(2)
 	}
 	steps := rec.Input.Steps
 	reply := c.Model([]string{c08ModelLine("run", steps)})[0]
